@@ -56,7 +56,7 @@ EXT = {'lua': '.lua', 'p8': '.p8', 'p8png': '.p8.png'}
 STEMS = ('x', 'inc', 'my-lib', 'v1.2', 'lib2', 't-9.b', 'old.p8', 'util.lua', '7')
 DIRS = ((5, ''), (2, 'lib/'), (2, 'sub/dir/'), (1, 'a-b.c/'))
 WORDS = (b'x', b'go', b'hi there', b'tab 1', b'p8')
-NEAR_SEPARATORS = (b'x=1 -->8', b'--->8', b'-- >8', b'--8', b'-- -->8')
+NEAR_SEPARATORS = (b'x=1 -->8', b'--->8', b'-- >8', b'--8', b'-- -->8', b'  -->8', b'\t-->8', b' -->8  ')
 SEPARATOR = b'-->8'
 PLACES = ('plain', 'plain', 'carts_root', 'carts_sub')
 
